@@ -3,13 +3,14 @@
 # fresh worktree of /repo's HEAD and fail once patch.diff is applied; the project's own suite must still pass.
 export GOFLAGS=-mod=mod GOPROXY=off GOSUMDB=off GOTOOLCHAIN=local
 ID=$1; K=$2
-SRC=/tmp/seed/out/$ID/$K
-[ -d $SRC ] || SRC=/verif/seeded/$ID-$K
+ROOT=${SEEDROOT:-/tmp/seed}; OFF=${SEEDOFF:-0}
+SRC=$ROOT/out/$ID/$K
+[ -d $SRC ] || SRC=/verif/seeded/$ID-$((K+OFF))
 WT=/tmp/vdemo-$ID-$K
 rm -rf $WT; git -C /repo worktree prune; git -C /repo worktree add -q --detach $WT || exit 2
 meta=$SRC/meta.json; [ -f $SRC/meta.agent.json ] && meta=$SRC/meta.agent.json
-copy_to=$(jq -r '.demo.copy_to // empty' $meta | awk '{print $1}' | sed "s#^/tmp/seed/$ID/##; s#[,;)]*\$##")
-cmd=$(jq -r '.demo.command // empty' $meta | sed "s#/tmp/seed/out/$ID/$K#$SRC#g; s#/tmp/seed/$ID#$WT#g")
+copy_to=$(jq -r '.demo.copy_to // empty' $meta | awk '{print $1}' | sed "s#^$ROOT/$ID/##; s#[,;)]*\$##")
+cmd=$(jq -r '.demo.command // empty' $meta | sed "s#$ROOT/out/$ID/$K#$SRC#g; s#$ROOT/$ID#$WT#g")
 place() {
   if [ -f $SRC/demo_test.go ]; then
     case "$copy_to" in
